@@ -236,6 +236,10 @@ def conf_items(tier):
                     items.append(('curve25519-sha256', (c1, c2), (m1, m2), comp, tier))
     for kex in R.ALL_KEX:
         items.append((kex, 'aes128-ctr', 'hmac-sha2-256', 'none', tier))
+        # longest keys: with a 20-byte exchange hash the 64-byte MAC / chacha keys need 4 derivation rounds
+        items.append((kex, 'aes256-ctr', 'hmac-sha2-512', 'none', tier))
+        items.append((kex, 'chacha20-poly1305@openssh.com', 'hmac-sha2-256', 'none', tier))
+        items.append((kex, 'aes256-cbc', 'hmac-sha2-512-etm@openssh.com', 'none', tier))
     for cipher, (_ks, _iv, _bs, kind) in R.CIPHERS.items():
         macs = ['hmac-sha2-256'] if kind in ('gcm', 'chacha') else list(R.MACS)
         for mac in macs:
